@@ -226,4 +226,55 @@ theorem step_cases (parse : Bytes → Option Uuid) (s : PState) (op : Op) (h : A
                 · left; exact ⟨_, rfl⟩
                 · left; exact ⟨_, rfl⟩
 
+/-! ### dict keys stay unique -/
+
+/-- representation invariant of Python dicts: no key occurs twice -/
+def KeysNodup (s : PState) : Prop :=
+  (akeys s.paired).Nodup ∧ (akeys s.props).Nodup ∧ (akeys s.u2b).Nodup
+
+theorem nodup_aset {K V : Type} [DecidableEq K] (l : List (K × V)) (k : K) (v : V)
+    (h : (akeys l).Nodup) : (akeys (aset l k v)).Nodup := by
+  rw [akeys_aset]
+  split
+  · exact h
+  · next hk =>
+    rw [List.nodup_append]
+    exact ⟨h, by simp, by intro a ha b hb; simp at hb; subst hb; intro e; exact hk (e ▸ ha)⟩
+
+theorem nodup_adel {K V : Type} [DecidableEq K] (l : List (K × V)) (k : K)
+    (h : (akeys l).Nodup) : (akeys (adel l k)).Nodup := by
+  rw [akeys_adel]; exact h.erase k
+
+theorem keysNodup_step (parse : Bytes → Option Uuid) (s : PState) (op : Op) (h : Aligned s)
+    (hn : KeysNodup s) : KeysNodup (step parse s op).1 := by
+  obtain ⟨n1, n2, n3⟩ := hn
+  rcases step_cases parse s op h with ⟨resp, e⟩ | ⟨idb, key, perms, s', e1, e⟩ | ⟨u, pc, _, _, e⟩
+  · rw [e]; exact ⟨n1, n2, n3⟩
+  · rw [e]
+    unfold addPairedClient at e1
+    split at e1
+    · cases e1
+    · split at e1
+      · cases e1; exact ⟨nodup_aset _ _ _ n1, nodup_aset _ _ _ n2, nodup_aset _ _ _ n3⟩
+      · cases e1
+  · rw [e, removePairedClient_eq]
+    split
+    · exact ⟨n1, n2, n3⟩
+    · split
+      · exact ⟨nodup_adel _ _ n1, n2, n3⟩
+      · split
+        · exact ⟨nodup_adel _ _ n1, nodup_adel _ _ n2, nodup_adel _ _ n3⟩
+        · exact ⟨by simp [akeys], by simp [akeys], nodup_adel _ _ n3⟩
+
+theorem keysNodup_run (parse : Bytes → Option Uuid) (ops : List Op) (s : PState) (h : Aligned s)
+    (hn : KeysNodup s) : KeysNodup (run parse s ops) ∧ Aligned (run parse s ops) := by
+  induction ops generalizing s with
+  | nil => exact ⟨hn, h⟩
+  | cons op rest ih =>
+    refine ih _ ?_ (keysNodup_step parse s op h hn)
+    rcases step_cases parse s op h with ⟨resp, e⟩ | ⟨idb, key, perms, s', e1, e⟩ | ⟨u, pc, _, _, e⟩
+    · rw [e]; exact h
+    · rw [e]; exact addPairedClient_aligned parse s s' idb key perms h e1
+    · rw [e]; exact removePairedClient_aligned s u h
+
 end Hap.PairState
